@@ -19,8 +19,9 @@ open IncrVerif.Engine IncrVerif.Proofs
 /-- Complete description of a write outside a stabilisation.  The value is written first; then
 (a) a var whose watch node was abandoned panics; (b) same round as the last write: only the
 `var_sets` counter moves; (c) later round: `set_at` becomes the current round, [debug] the watch node
-must be stale, and if the watch node is necessary and not yet queued it is inserted in the
-recompute heap.  The result is the OLD value. -/
+must be invalid or stale, and if the watch node is valid, necessary and not yet queued it is inserted
+in the recompute heap (D14: an invalidated watch node is never scheduled).  The result is the OLD
+value. -/
 theorem write_outside_run (v : Nat) (f : Val → Val) (isSet : Bool) (s : State) (vc : VarCell)
     (hv : s.vars[v]? = some vc) (hst : s.status ≠ .stabilising) :
     (writeVar v f isSet).run.run s =
@@ -28,9 +29,10 @@ theorem write_outside_run (v : Nat) (f : Val → Val) (isSet : Bool) (s : State)
         (.error (.site "var:abandoned-watch-node"), withCell v { vc with value := f vc.value } s)
       else if s.stabNum ≤ vc.setAt then
         (.ok vc.value, bumped (withCell v { vc with value := f vc.value } s))
-      else if s.cfg.debug = true ∧ (stampedWrite v vc (f vc.value) s).isStale vc.node = false then
+      else if s.cfg.debug = true ∧ (!(s.nodeD vc.node).valid ||
+          (stampedWrite v vc (f vc.value) s).isStale vc.node) = false then
         (.error (.site "var:did_set:watch-stale"), stampedWrite v vc (f vc.value) s)
-      else if (s.isNecessary vc.node && !(s.nodeD vc.node).inRch) = true then
+      else if ((s.nodeD vc.node).valid && s.isNecessary vc.node && !(s.nodeD vc.node).inRch) = true then
         mapOk vc.value ((rchInsert vc.node).run.run (stampedWrite v vc (f vc.value) s))
       else (.ok vc.value, stampedWrite v vc (f vc.value) s) :=
   Proofs.writeVar_outside_closed v f isSet s vc hv hst
@@ -74,15 +76,15 @@ example : exVsame.vars[0]? = some { value := .int 1, setAt := 3, node := 0 } ∧
   ⟨rfl, by decide, by decide, _, _, rfl⟩
 
 /-- First write in a round, watch node a `Var` node of this cell: afterwards the watch node is stale
-iff it is valid and was last recomputed in an earlier round; with debug assertions on it IS stale
-(otherwise the write would have panicked). -/
+iff it is valid and was last recomputed in an earlier round; with debug assertions on a VALID watch
+node IS stale (otherwise the write would have panicked; an invalid one is never stale). -/
 theorem write_outside_stale (v : Nat) (f : Val → Val) (isSet : Bool) (s s' : State)
     (vc : VarCell) (r : Val) (nd : Node) (hv : s.vars[v]? = some vc) (hst : s.status ≠ .stabilising)
     (hlt : vc.setAt < s.stabNum)
     (hn : s.nodes[vc.node]? = some nd) (hk : nd.kind = .var v)
     (hr : (writeVar v f isSet).run.run s = (.ok r, s')) :
     s'.isStale vc.node = (nd.valid && decide (nd.recomputedAt < s.stabNum)) ∧
-    (s.cfg.debug = true → s'.isStale vc.node = true) :=
+    (s.cfg.debug = true → nd.valid = true → s'.isStale vc.node = true) :=
   Proofs.writeVar_outside_stale v f isSet s s' vc r nd hv hst hlt hn hk hr
 
 example : ∃ nd, exV.nodes[0]? = some nd ∧ nd.kind = .var 0 ∧ (1 : Int) < exV.stabNum :=
@@ -90,26 +92,28 @@ example : ∃ nd, exV.nodes[0]? = some nd ∧ nd.kind = .var 0 ∧ (1 : Int) < e
 example : (((writeVar 0 (fun _ => .int 5)).run.run exV).2).isStale 0 = true := rfl
 
 /-- First write in a round, heap side: afterwards the watch node is queued iff it was queued before
-or is necessary.  If it was necessary and not queued, it has been appended to the bucket of its
-height (which therefore is within `0..max_height_allowed`), the heap length grew by one and the
-engine is not stable; otherwise heap and nodes are untouched. -/
+or is valid and necessary.  If it was valid, necessary and not queued, it has been appended to the
+bucket of its height (which therefore is within `0..max_height_allowed`), the heap length grew by one
+and the engine is not stable; otherwise (in particular for an invalidated watch node) heap and nodes
+are untouched. -/
 theorem write_outside_heap (v : Nat) (f : Val → Val) (isSet : Bool) (s s' : State)
     (vc : VarCell) (r : Val) (hv : s.vars[v]? = some vc) (hst : s.status ≠ .stabilising)
     (hlt : vc.setAt < s.stabNum)
     (hr : (writeVar v f isSet).run.run s = (.ok r, s')) :
-    (s'.nodeD vc.node).inRch = ((s.nodeD vc.node).inRch || s.isNecessary vc.node) ∧
+    (s'.nodeD vc.node).inRch =
+      ((s.nodeD vc.node).inRch || ((s.nodeD vc.node).valid && s.isNecessary vc.node)) ∧
     s'.isNecessary vc.node = s.isNecessary vc.node ∧
-    ((s.isNecessary vc.node && !(s.nodeD vc.node).inRch) = true →
+    (((s.nodeD vc.node).valid && s.isNecessary vc.node && !(s.nodeD vc.node).inRch) = true →
       0 ≤ (s.nodeD vc.node).height ∧ (s.nodeD vc.node).height ≤ s.rch.maxAllowed ∧
       s'.rch.queues = s.rch.queues.modify (s.nodeD vc.node).height.toNat (· ++ [vc.node]) ∧
       s'.rch.length = s.rch.length + 1 ∧
       (s'.nodeD vc.node).heightInRch = (s.nodeD vc.node).height ∧
       s'.isStable = false) ∧
-    (¬ (s.isNecessary vc.node && !(s.nodeD vc.node).inRch) = true →
+    (¬ ((s.nodeD vc.node).valid && s.isNecessary vc.node && !(s.nodeD vc.node).inRch) = true →
       s'.rch = s.rch ∧ s'.nodes = s.nodes) :=
   Proofs.writeVar_outside_heap v f isSet s s' vc r hv hst hlt hr
 
-example : (exV.isNecessary 0 && !(exV.nodeD 0).inRch) = true := rfl
+example : ((exV.nodeD 0).valid && exV.isNecessary 0 && !(exV.nodeD 0).inRch) = true := rfl
 example : (((writeVar 0 (fun _ => .int 5)).run.run exV).2).rch.queues[0]? = some [0] := rfl
 
 /-- EXACT panic characterisation of a write outside a stabilisation: which panic is raised, or the
@@ -120,9 +124,11 @@ theorem write_outside_result (v : Nat) (f : Val → Val) (isSet : Bool) (s : Sta
     ((writeVar v f isSet).run.run s).1 =
       if vc.linked = false then .error (.site "var:abandoned-watch-node")
       else if s.stabNum ≤ vc.setAt then .ok vc.value
-      else if s.cfg.debug = true ∧ (stampedWrite v vc (f vc.value) s).isStale vc.node = false then
+      else if s.cfg.debug = true ∧ (!(s.nodeD vc.node).valid ||
+          (stampedWrite v vc (f vc.value) s).isStale vc.node) = false then
         .error (.site "var:did_set:watch-stale")
-      else if (s.isNecessary vc.node && !(s.nodeD vc.node).inRch) = false then .ok vc.value
+      else if ((s.nodeD vc.node).valid && s.isNecessary vc.node && !(s.nodeD vc.node).inRch) = false then
+        .ok vc.value
       else if s.cfg.debug = true ∧ (s.nodeD vc.node).height > s.rch.maxAllowed then
         .error (.site "recompute_heap:insert:height<=max")
       else if (s.nodeD vc.node).height < 0 then .error (.site "recompute_heap:link:height>=0")
@@ -136,19 +142,21 @@ example : exVdead.vars[0]? = some { value := .int 1, setAt := 1, node := 0, link
 /-- a write through a var whose watch node was abandoned panics -/
 example : ((writeVar 0 (fun _ => .int 5)).run.run exVdead).1 =
     .error (.site "var:abandoned-watch-node") := rfl
-/-- CONSEQUENCE worth noting: with debug assertions on, a write (first of its round) to a var whose
-watch node is INVALID trips `debug_assert!(watch.is_stale())`, because an invalid node is never
-stale.  (Not reachable through the history language of the model, which creates vars at top scope
-only; `var_current_scope` inside a bind whose left-hand side later changes produces such a var.) -/
-example : ((writeVar 0 (fun _ => .int 5)).run.run exVinv).1 =
-    .error (.site "var:did_set:watch-stale") := rfl
+/-- Since the D14 repair a write (first of its round) to a var whose watch node is INVALID no longer
+trips `debug_assert!(watch.is_stale())` (an invalid node is never stale; the assertion now reads
+`!watch.is_valid() || watch.is_stale()`): it returns the old value.  See `write_outside_invalid_watch`
+at the end of this file.  (Such a var is not reachable through the history language of the model,
+which creates vars at top scope only; `var_current_scope` inside a bind whose left-hand side later
+changes produces one.) -/
+example : ((writeVar 0 (fun _ => .int 5)).run.run exVinv).1 = .ok (.int 1) := rfl
 
-/-- In particular: a linked var, debug assertions off, watch node unnecessary or already queued or
-of a height within the heap — the write does not panic and returns the old value. -/
+/-- In particular: a linked var, debug assertions off, watch node invalid or unnecessary or already
+queued or of a height within the heap — the write does not panic and returns the old value. -/
 theorem write_outside_no_panic (v : Nat) (f : Val → Val) (isSet : Bool) (s : State) (vc : VarCell)
     (hv : s.vars[v]? = some vc) (hst : s.status ≠ .stabilising)
     (hl : vc.linked = true) (hd : s.cfg.debug = false)
-    (hq : s.isNecessary vc.node = false ∨ (s.nodeD vc.node).inRch = true ∨
+    (hq : (s.nodeD vc.node).valid = false ∨ s.isNecessary vc.node = false ∨
+      (s.nodeD vc.node).inRch = true ∨
       (0 ≤ (s.nodeD vc.node).height ∧ (s.nodeD vc.node).height ≤ s.rch.maxAllowed)) :
     ((writeVar v f isSet).run.run s).1 = .ok vc.value :=
   Proofs.writeVar_outside_no_panic v f isSet s vc hv hst hl hd hq
@@ -292,5 +300,49 @@ theorem stabiliseEndVars_untouched (s s' : State) (u : Unit) (v : Nat)
 
 example : (∃ u s', stabiliseEndVars.run.run exVs = (.ok u, s')) ∧ 0 ∉ exVs.setDuringStab :=
   ⟨⟨_, _, rfl⟩, by decide⟩
+
+/-! ## 5. D14: a var whose watch node has been invalidated -/
+
+/-- D14 GUARANTEE.  A var created with `var_current_scope` inside a bind scope keeps its handle after
+the scope (hence its watch node) has been invalidated.  A write through such a handle outside a
+stabilisation, while the var is still linked, NEVER panics — with or without debug assertions (no
+hypothesis on `s.cfg.debug`), whatever the height, necessity or heap membership of the dead watch
+node — and returns the old value.  The final state is `wroteQuiet v vc (f vc.value) s`, i.e. the
+cell holds `f old` with `set_at` raised to the current round if it was older and the `var_sets` counter
+incremented; the node array and the recompute heap are UNCHANGED (the invalid watch node is not
+scheduled again), and so is everything else (other cells, adjust-heights heap, round, status,
+deferred-writes stack, observers, config, `max_height_seen`).  Before the repair the same write
+panicked at `var:did_set:watch-stale` in debug builds and, in release builds, linked the invalid
+node into the recompute heap when it still looked necessary. -/
+theorem write_outside_invalid_watch (v : Nat) (f : Val → Val) (isSet : Bool) (s : State)
+    (vc : VarCell) (hv : s.vars[v]? = some vc) (hst : s.status ≠ .stabilising)
+    (hl : vc.linked = true) (hinv : (s.nodeD vc.node).valid = false) :
+    ∃ s', (writeVar v f isSet).run.run s = (.ok vc.value, s') ∧
+      s' = wroteQuiet v vc (f vc.value) s ∧
+      s' = (if s.stabNum ≤ vc.setAt then bumped (withCell v { vc with value := f vc.value } s)
+            else stampedWrite v vc (f vc.value) s) ∧
+      s'.vars[v]? = some { vc with value := f vc.value,
+                                   setAt := if vc.setAt < s.stabNum then s.stabNum else vc.setAt } ∧
+      (∀ w, w ≠ v → s'.vars[w]? = s.vars[w]?) ∧
+      s'.nodes = s.nodes ∧ s'.rch = s.rch ∧ s'.ahh = s.ahh ∧
+      s'.stabNum = s.stabNum ∧ s'.status = s.status ∧ s'.setDuringStab = s.setDuringStab ∧
+      s'.observers = s.observers ∧ s'.cfg = s.cfg ∧ s'.maxHeightSeen = s.maxHeightSeen ∧
+      s'.counters.varSets = s.counters.varSets + 1 :=
+  ⟨_, Proofs.writeVar_outside_invalid v f isSet s vc hv hst hl hinv, rfl,
+    Proofs.wroteQuiet_eq v vc (f vc.value) s, Proofs.wroteQuiet_facts v vc (f vc.value) s hv⟩
+
+/-- the hypotheses hold on `exVinv` (debug assertions ON, watch node invalid but still observed, i.e.
+"necessary", and not queued) -/
+example : exVinv.vars[0]? = some { value := .int 1, setAt := 1, node := 0 } ∧
+    exVinv.status ≠ .stabilising ∧ (exVinv.nodeD 0).valid = false ∧ exVinv.cfg.debug = true ∧
+    (exVinv.isNecessary 0 && !(exVinv.nodeD 0).inRch) = true :=
+  ⟨rfl, by decide, rfl, rfl, rfl⟩
+/-- and the write indeed returns the old value, stores the new one and leaves heap and nodes alone -/
+example : ((writeVar 0 (fun _ => .int 5)).run.run exVinv).1 = .ok (.int 1) ∧
+    (((writeVar 0 (fun _ => .int 5)).run.run exVinv).2).vars[0]? =
+      some { value := .int 5, setAt := 3, node := 0 } ∧
+    (((writeVar 0 (fun _ => .int 5)).run.run exVinv).2).rch.length = 0 ∧
+    (((writeVar 0 (fun _ => .int 5)).run.run exVinv).2).rch.queues[0]? = some [] ∧
+    (((writeVar 0 (fun _ => .int 5)).run.run exVinv).2).nodes = exVinv.nodes := ⟨rfl, rfl, rfl, rfl, rfl⟩
 
 end IncrVerif.Props.C08
